@@ -197,14 +197,38 @@ def run_history(root: Path, fmt: str, eps: int, hist):
         prev_snap = snap
     # Dataset.create on an existing dataset must be refused and change nothing
     before = {str(p.relative_to(root)): hashlib.sha256(p.read_bytes()).hexdigest() for p in sorted(root.rglob("*")) if p.is_file()}
+    # … whichever way the existing directory is spelled: absolute, relative to the working directory, through
+    # `..`, with a trailing separator, through `~`, through a symbolic link
+    import os
+    root = Path(root)
+    link = root.parent / (root.name + "_link")
     try:
-        sp.mk(root, fmt=fmt, eps=eps); create = "created"
-    except DatasetExistsError:
-        create = "refused"
-    except Exception as e:  # noqa: BLE001
-        create = f"{type(e).__name__}"
+        if link.is_symlink(): link.unlink()
+        link.symlink_to(root, target_is_directory=True)
+    except OSError:
+        link = None
+    spellings = [("absolute", str(root)), ("relative", root.name), ("dotdot", f"{root.name}/../{root.name}"), ("trailing-slash", str(root) + "/"),
+                 ("tilde", f"~/{root.name}")] + ([("symlink", str(link))] if link else [])
+    create, how = "refused", {}
+    cwd, home = os.getcwd(), os.environ.get("HOME")
+    os.chdir(root.parent); os.environ["HOME"] = str(root.parent)
+    try:
+        for name, pth in spellings:
+            try:
+                sp.mk(pth, fmt=fmt, eps=eps); how[name] = "created"
+            except DatasetExistsError:
+                how[name] = "refused"
+            except Exception as e:  # noqa: BLE001
+                how[name] = f"{type(e).__name__}"
+            if how[name] != "refused" and create == "refused":
+                create = f"{how[name]} via {name} path {pth!r}"
+    finally:
+        os.chdir(cwd)
+        if home is None: os.environ.pop("HOME", None)
+        else: os.environ["HOME"] = home
+        if link and link.is_symlink(): link.unlink()
     after = {str(p.relative_to(root)): hashlib.sha256(p.read_bytes()).hexdigest() for p in sorted(root.rglob("*")) if p.is_file()}
-    return recs, {"create": create, "unchanged": before == after}
+    return recs, {"create": create, "unchanged": before == after, "spellings": how}
 
 
 def model_request(recs, upto: int):
